@@ -134,6 +134,15 @@ def mask_index(t):
     return t
 
 
+def cycler_values(t):
+    """matplotlib cycler(c=values) iterates its values: a tuple of colours cycles like the list of the same colours."""
+    if head(t) == "call" and strip(t[1]) == ("glob", "matplotlib.pyplot.cycler"):
+        from ..rules import rewrite
+        as_list = lambda x: ("call", ("glob", "builtins.list"), x[2], x[3]) if head(x) == "call" and strip(x[1]) == ("glob", "builtins.tuple") else x
+        return ("call", t[1], tuple(rewrite(a, as_list) for a in t[2]), tuple((k, rewrite(v, as_list)) for k, v in t[3]))
+    return t
+
+
 def run(r):
     rep = r.rep
     rep.explanation = "The data arguments that each summary / plotting function passes on were extracted from the current source and compared with the specification."
@@ -141,7 +150,7 @@ def run(r):
               "seaborn ClusterGrid.plot calls plot_matrix(colorbar_kws, xind, yind) with the dendrogram leaf orders")
     # purity first: cheap, robust, and a recorded violation takes precedence over a later 'cannot decide'
     check_pure_params(r, "C19-PURE", [U + "seqs_to_regex", U + "seqs_to_consensus", PL + "rankfrequency", PL + "labels_to_colors_hls", PL + "labels_to_colors_tableau", PL + "density_scatter", PL + "seqlogos", PL + "similarity_clustermap"])
-    eq = Equiv(rewrites=std_rewrites(ident=("numpy.asarray",)) + [canon_binders, mask_index], modelled={"logomaker.alignment_to_matrix", "numpy.sort", "numpy.arange", "numpy.isnan", "numpy.unique", "seaborn.hls_palette",
+    eq = Equiv(rewrites=std_rewrites(ident=("numpy.asarray",)) + [canon_binders, mask_index, cycler_values], modelled={"logomaker.alignment_to_matrix", "numpy.sort", "numpy.arange", "numpy.isnan", "numpy.unique", "seaborn.hls_palette",
                                                                                             "matplotlib.pyplot.cycler", "matplotlib.pyplot.gca", "numpy.random.shuffle", "builtins.zip", "builtins.dict"})
     # structural core, independent of how missing values are dropped: the ranks 0..size-1 and the cumulative norm are taken from the very
     # array whose reversed values are drawn
